@@ -91,40 +91,40 @@ macro_rules! remove {
 
 harnesses! {
     // ---- append / prepend / insert: argument window at an independent offset
-    fn c06_q_append_dna [4] { append!(Dna, oracle::DNA, 64, 3, 4, 30, 3) }
-    fn c06_q_append_dna_to_empty [4] { append!(Dna, oracle::DNA, 64, 0, 0, 31, 2) }
-    fn c06_q_append_dna_empty_arg [4] { append!(Dna, oracle::DNA, 64, 5, 3, 9, 0) }
-    fn c06_q_append_miupac_straddle [8] { append!(masked::Iupac, oracle::MIUPAC, 25, 0, 12, 12, 2) }
-    fn c06_t_append_amino [8] { append!(Amino, oracle::AMINO, 21, 1, 2, 10, 2) }
-    fn c06_t_append_dna_l31_m3 [4] { append!(Dna, oracle::DNA, 64, 0, 31, 40, 3) }
-    fn c06_q_prepend_dna [4] { prepend!(Dna, oracle::DNA, 64, 3, 4, 30, 3) }
-    fn c06_t_prepend_amino [8] { prepend!(Amino, oracle::AMINO, 21, 1, 2, 10, 2) }
-    fn c06_t_prepend_dna_to_empty [4] { prepend!(Dna, oracle::DNA, 64, 0, 0, 31, 2) }
-    fn c06_q_insert_dna_mid [4] { insert!(Dna, oracle::DNA, 64, 3, 4, 2, 30, 3) }
-    fn c06_q_insert_dna_front [4] { insert!(Dna, oracle::DNA, 64, 3, 4, 0, 30, 2) }
-    fn c06_q_insert_dna_end [4] { insert!(Dna, oracle::DNA, 64, 3, 4, 4, 30, 2) }
-    fn c06_t_insert_amino_mid [8] { insert!(Amino, oracle::AMINO, 21, 0, 3, 1, 10, 2) }
-    fn c06_t_insert_miupac_mid [8] { insert!(masked::Iupac, oracle::MIUPAC, 25, 0, 3, 2, 12, 1) }
-    fn c06_q_insert_past_end_xp [4] {
+    fn c06_q_append_dna [10] { append!(Dna, oracle::DNA, 64, 3, 4, 30, 3) }
+    fn c06_q_append_dna_to_empty [10] { append!(Dna, oracle::DNA, 64, 0, 0, 31, 2) }
+    fn c06_q_append_dna_empty_arg [10] { append!(Dna, oracle::DNA, 64, 5, 3, 9, 0) }
+    fn c06_q_append_miupac_straddle [10] { append!(masked::Iupac, oracle::MIUPAC, 25, 0, 12, 12, 2) }
+    fn c06_t_append_amino [10] { append!(Amino, oracle::AMINO, 21, 1, 2, 10, 2) }
+    fn c06_t_append_dna_l31_m3 [10] { append!(Dna, oracle::DNA, 64, 0, 31, 40, 3) }
+    fn c06_q_prepend_dna [10] { prepend!(Dna, oracle::DNA, 64, 3, 4, 30, 3) }
+    fn c06_t_prepend_amino [10] { prepend!(Amino, oracle::AMINO, 21, 1, 2, 10, 2) }
+    fn c06_t_prepend_dna_to_empty [10] { prepend!(Dna, oracle::DNA, 64, 0, 0, 31, 2) }
+    fn c06_q_insert_dna_mid [10] { insert!(Dna, oracle::DNA, 64, 3, 4, 2, 30, 3) }
+    fn c06_q_insert_dna_front [10] { insert!(Dna, oracle::DNA, 64, 3, 4, 0, 30, 2) }
+    fn c06_q_insert_dna_end [10] { insert!(Dna, oracle::DNA, 64, 3, 4, 4, 30, 2) }
+    fn c06_t_insert_amino_mid [10] { insert!(Amino, oracle::AMINO, 21, 0, 3, 1, 10, 2) }
+    fn c06_t_insert_miupac_mid [10] { insert!(masked::Iupac, oracle::MIUPAC, 25, 0, 3, 2, 12, 1) }
+    fn c06_q_insert_past_end_xp [10] {
         setup!(Dna, 64, 3, 4, 4, w, src, s);
         reach!("before call");
         s.insert(5, &src[30..32]);
         crate::must_not_return!("C06.insert.index_past_end_accepted");
     }
     // ---- remove: every RangeBounds form
-    fn c06_q_remove_range [5] { remove!(Dna, oracle::DNA, 64, 3, 6, 2..5, 2, 5) }
-    fn c06_q_remove_incl [5] { remove!(Dna, oracle::DNA, 64, 3, 6, 2..=4, 2, 5) }
-    fn c06_q_remove_to [5] { remove!(Dna, oracle::DNA, 64, 3, 6, ..2, 0, 2) }
-    fn c06_q_remove_from [5] { remove!(Dna, oracle::DNA, 64, 3, 6, 4.., 4, 6) }
-    fn c06_q_remove_full [5] { remove!(Dna, oracle::DNA, 64, 3, 6, .., 0, 6) }
-    fn c06_t_remove_toincl [5] { remove!(Dna, oracle::DNA, 64, 3, 6, ..=2, 0, 3) }
-    fn c06_t_remove_excl_start [5] { remove!(Dna, oracle::DNA, 64, 3, 6, (Bound::Excluded(1), Bound::Included(3)), 2, 4) }
-    fn c06_t_remove_empty_range [5] { remove!(Dna, oracle::DNA, 64, 3, 6, 3..3, 3, 3) }
-    fn c06_t_remove_amino [8] { remove!(Amino, oracle::AMINO, 21, 9, 4, 1..3, 1, 3) }
-    fn c06_t_remove_miupac [8] { remove!(masked::Iupac, oracle::MIUPAC, 25, 11, 4, 1..2, 1, 2) }
-    fn c06_t_remove_dna_l34 [5] { remove!(Dna, oracle::DNA, 64, 0, 34, 30..33, 30, 33) }
+    fn c06_q_remove_range [10] { remove!(Dna, oracle::DNA, 64, 3, 6, 2..5, 2, 5) }
+    fn c06_q_remove_incl [10] { remove!(Dna, oracle::DNA, 64, 3, 6, 2..=4, 2, 5) }
+    fn c06_q_remove_to [10] { remove!(Dna, oracle::DNA, 64, 3, 6, ..2, 0, 2) }
+    fn c06_q_remove_from [10] { remove!(Dna, oracle::DNA, 64, 3, 6, 4.., 4, 6) }
+    fn c06_q_remove_full [10] { remove!(Dna, oracle::DNA, 64, 3, 6, .., 0, 6) }
+    fn c06_t_remove_toincl [10] { remove!(Dna, oracle::DNA, 64, 3, 6, ..=2, 0, 3) }
+    fn c06_t_remove_excl_start [10] { remove!(Dna, oracle::DNA, 64, 3, 6, (Bound::Excluded(1), Bound::Included(3)), 2, 4) }
+    fn c06_t_remove_empty_range [10] { remove!(Dna, oracle::DNA, 64, 3, 6, 3..3, 3, 3) }
+    fn c06_t_remove_amino [10] { remove!(Amino, oracle::AMINO, 21, 9, 4, 1..3, 1, 3) }
+    fn c06_t_remove_miupac [10] { remove!(masked::Iupac, oracle::MIUPAC, 25, 11, 4, 1..2, 1, 2) }
+    fn c06_t_remove_dna_l34 [10] { remove!(Dna, oracle::DNA, 64, 0, 34, 30..33, 30, 33) }
     // ---- truncate / clear / extend
-    fn c06_q_truncate [4] {
+    fn c06_q_truncate [10] {
         setup!(Dna, 64, 3, 6, 6, w, src, s);
         let k = any_usize();
         assume(k <= 8);
@@ -138,7 +138,7 @@ harnesses! {
         reach!(k == 2, "shorter");
         core::mem::forget(s);
     }
-    fn c06_q_clear_then_push [4] {
+    fn c06_q_clear_then_push [10] {
         setup!(Dna, 64, 3, 6, 6, w, src, s);
         s.clear();
         assert!(s.len() == 0 && s.is_empty(), "C06.clear.len");
@@ -148,7 +148,7 @@ harnesses! {
         reach!("end");
         core::mem::forget(s);
     }
-    fn c06_q_extend2 [4] {
+    fn c06_q_extend2 [10] {
         setup!(Dna, 64, 3, 3, 5, w, src, s);
         let (x, y) = (Dna::try_from_bits(any_u8() & 3).unwrap(), Dna::try_from_bits(any_u8() & 3).unwrap());
         s.extend([x, y]);
@@ -161,7 +161,7 @@ harnesses! {
         core::mem::forget(s);
     }
     // ---- copies taken before an edit keep their content
-    fn c06_q_clone_then_edit [4] {
+    fn c06_q_clone_then_edit [10] {
         setup!(Dna, 64, 3, 4, 6, w, src, s);
         let c = s.clone();
         let x = Dna::try_from_bits(any_u8() & 3).unwrap();
@@ -176,7 +176,7 @@ harnesses! {
         core::mem::forget(s);
         core::mem::forget(c);
     }
-    fn c06_q_to_owned_then_edit [4] {
+    fn c06_q_to_owned_then_edit [10] {
         setup!(Dna, 64, 3, 4, 4, w, src, s);
         let c: Seq<Dna> = s[1..3].to_owned();
         s.remove(0..2);
@@ -189,7 +189,7 @@ harnesses! {
         core::mem::forget(c);
     }
     // ---- two-step compositions (cross-check of the single-step induction)
-    fn c06_q_remove_then_insert [5] {
+    fn c06_q_remove_then_insert [10] {
         setup!(Dna, 64, 3, 5, 5, w, src, s);
         s.remove(1..3);
         s.insert(1, &src[40..42]);
@@ -201,7 +201,7 @@ harnesses! {
         reach!("end");
         core::mem::forget(s);
     }
-    fn c06_t_truncate_then_append [5] {
+    fn c06_t_truncate_then_append [10] {
         setup!(Dna, 64, 3, 5, 5, w, src, s);
         s.truncate(2);
         s.append(&src[31..34]);
